@@ -1018,7 +1018,7 @@ def run_round(rep, rows, quirks, r, base_db, tier, n_round):
             for state in STATES:
                 if only and state not in only:
                     continue
-                for path in PATHS:
+                for path in PATHS + SELECT_PATHS:
                     cells.append((label, args, ostate, state, path))
         r.shuffle(cells)
         if tier == "quick":
@@ -1085,10 +1085,10 @@ def main(tier, seed):
     rep.rule = ("every client command is mirrored as an event to the Lean machine Ferrous.Watch.step; the effect of each write on its keys is observed "
                 "(dump before/after through a read-only control connection), the marking is predicted by the model from the regenerated table "
                 "Gen.storageFns; at every EXEC: server reply vs code model vs Spec verdict, and the probe key written by the transaction "
-                "(nil executes nothing, array executes).  Matrix = %d command variants x 9 states of the watched key x 4 paths (other connection, "
+                "(nil executes nothing, array executes).  Matrix = %d command variants x 9 states of the watched key x 6 paths (other connection, "
                 "same connection, inside another EXEC, inside EVAL) + the same commands on other keys (same shard by FNV-1a, other shard, watched key "
                 "present/absent) + scenarios (forgetting, re-WATCH, served blocking pop, expiry with the sweeper paused and running, SELECT between "
-                "WATCH and UNWATCH/EXEC on fresh servers).  distinct = (command variant, state, path, server outcome, model answer)" % len(COMMANDS))
+                "WATCH and UNWATCH/EXEC on fresh servers; expiry of a watched key of every type, lazily and by the sweeper alone, nobody touching the key).  Two more matrix paths: the watcher SELECTs another database between WATCH and EXEC and the command runs in the WATCH-time database / only on the same key name in the EXEC-time database.  distinct = (command variant, state, path, server outcome, model answer)" % len(COMMANDS))
     rep.assumptions = [
         "consumer-group state (XGROUP/XREADGROUP/XACK/XCLAIM on an existing stream) is not part of the key's value here (as in Redis, these do not touch WATCH); streams are observed through XRANGE",
         "global_counter (u64) is modelled unbounded: 2^64 modifications of one shard are out of reach",
@@ -1103,19 +1103,14 @@ def main(tier, seed):
     ok, log, errs = proof_phase(rep, families=["watch"])
     build_server()
     fs = findings()
-    rows = table_rows()
-    if isinstance(rows, str):
-        rep.violation("translator no longer recognises the storage functions (%s): Gen.storageFns not extracted, table theorems cannot check" % rows,
-                      {"theorem_errors": errs[:10], "log_tail": log[-2000:]}, no_input=True)
-        return rep.finish()
+    # the table and the watch-list switches as the translator reads them; what it cannot read is replaced by the
+    # prescribed / pessimistic value with a note: the proof obligations then do not check, the search below still runs
+    rows, rows_note = table_rows()
+    quirks, q_notes = table_quirks()
+    translator_notes = ([("storage functions: " + rows_note)] if rows_note else []) + ["watch list: " + n for n in q_notes]
+    rep.extra["translator_not_recognised"] = translator_notes
     rep.extra["table_nonmarking_writes"] = sorted("%s:%s" % (r["name"], p) for r in rows if r["mutates"] for p in (r["keyParams"] or ["*"])
                                                   if (p not in r["marked"] if r["keyParams"] else not r["marksAll"]))
-    quirks = table_quirks()
-    if isinstance(quirks, str):
-        rep.violation("translator no longer recognises how the watch list is kept (%s): Gen.watchQ not extracted" % quirks,
-                      {"theorem_errors": errs[:10], "log_tail": log[-2000:]}, no_input=True)
-        return rep.finish()
-    quirks = tuple(int(x) for x in quirks)
     rep.extra["watch_list_quirks"] = {"perDb": bool(quirks[0]), "rewatchKeeps": bool(quirks[1]), "watchPurges": bool(quirks[2])}
     r = Rng(seed)
     oracle, disagree = [], []
@@ -1143,14 +1138,27 @@ def main(tier, seed):
         new.sort(key=lambda o: len(o["steps"]))
         o = new[0]
         alone = o.get("fresh_server") or reproduce_alone(rows, quirks, o, o["steps"])
-        obj = replay_obj(o, o["steps"] if alone else o["session_steps"][:o["upto"]])
+        steps_min = o["steps"]
+        if alone and len(steps_min) > 6:
+            # delta-debug the steps before the watcher's MULTI .. EXEC (each candidate on a fresh server)
+            tail_n = 3 if len(steps_min) >= 3 and steps_min[-3].get("text", "").upper() == "MULTI" else 1
+            head, tail = steps_min[:-tail_n], steps_min[-tail_n:]
+            try:
+                head = shrink_list(head, lambda cand: reproduce_alone(rows, quirks, o, cand + tail), max_steps=24)
+                steps_min = head + tail
+            except (InternalError, OSError):
+                pass
+        obj = replay_obj(o, steps_min if alone else o["session_steps"][:o["upto"]])
         obj["reproduces_on_fresh_server"] = bool(alone)
         obj["more"] = [{"cell": x.get("cell"), "kind": x["kind"], "impl": x.get("impl"), "spec": x.get("spec")} for x in new[1:12]]
         obj["lean_errors"] = errs[:5]
         rep.violation("WATCH: %s (%s)" % (o["why"], json.dumps(o.get("cell"))[:160]), obj)
-    elif not ok:
-        rep.violation("proof obligations of C08 no longer check against the regenerated table Gen.storageFns / the model",
-                      {"theorem_errors": errs[:10], "log_tail": log[-3000:]}, no_input=True)
+    elif not ok or translator_notes:
+        broken = sorted(set(re.findall(r"Props/C08\.lean:(\d+)", " ".join(errs))))
+        rep.violation("proof obligations of C08 no longer check against the regenerated tables Gen.storageFns / Gen.watchQ "
+                      "(Props/C08.lean lines %s%s); the dynamic search (matrix + scenarios, Spec as oracle) found no failing input"
+                      % (",".join(broken) or "?", "; translator: " + "; ".join(translator_notes) if translator_notes else ""),
+                      {"theorem_errors": errs[:10], "translator_not_recognised": translator_notes, "log_tail": log[-3000:]}, no_input=True)
     elif disagree:
         rep.violation("correspondence Ferrous.Watch.step (with Gen.storageFns) vs server broke (%d disagreements) although the oracle holds" % len(disagree),
                       {"correspondence": "drv_watch vs ferrous over TCP", "disagreements": [{k: v for k, v in d.items() if k != "steps"} for d in disagree[:8]],
@@ -1167,14 +1175,10 @@ def replay(path):
         return 1
     build_driver("watch")
     build_server()
-    rows = table_rows()
-    if isinstance(rows, str):
-        raise InternalError("translator: " + rows)
+    rows, _ = table_rows()
     fs = findings()
-    quirks = table_quirks()
-    if isinstance(quirks, str):
-        raise InternalError("translator: " + quirks)
-    s = Sess(rows, "c08replay", tuple(int(x) for x in quirks))
+    quirks, _ = table_quirks()
+    s = Sess(rows, "c08replay", quirks)
     try:
         s.cell = rp.get("cell")
         run_steps(s, rp["steps"])
